@@ -152,6 +152,7 @@ MEM_MB = int(os.environ.get("VERIF_PROTO_MEM_MB", "4096"))
 def run_child(binpath, env, cwd, timeout):
     e = dict(vbuild.GOENV)
     e.update(env)
+    e.setdefault("TMPDIR", cwd)          # the children's scratch data directories go away with the check's scratch directory
     args = [binpath, "-test.run", "^TestVerifProto$", "-test.count=1", "-test.timeout", str(timeout) + "s"]
     if MEM_MB > 0:
         args = ["/bin/sh", "-c", 'ulimit -v %d; exec "$0" "$@"' % (MEM_MB * 1024)] + args
